@@ -9,12 +9,19 @@
 //
 //	init <c|s> <crw> <cmaxrw> <srw> <smaxrw> <pMaxData> <pBidiLocal> <pBidiRemote> <pUni>   => ok
 //	     (perspective, our receive-window configuration, the peer's transport parameters)
+//	uinit <ff|ch> <crw> <cmaxrw> <srw> <smaxrw> <aMaxData> <aBidiLocal> <aBidiRemote> <aUni> <pMaxData> <pBidiLocal> <pBidiRemote> <pUni>
+//	     => ok adv=<maxData>,<bidiLocal>,<bidiRemote>,<uni>
+//	     (a spec-driven client built by the real newUClientConnection from the built-in Firefox / Chrome QUICSpec whose
+//	      advertised flow-control parameters are replaced by a* (-1: keep the built-in value); adv= is the list that
+//	      goes on the wire)
 //	open <lb|lu|pb|pu>                       => s=<sidx|-> r=<ridx|-> id=<streamID> sw=<n|-> rw=<n|->
 //	     (we open a bidi / uni stream; the peer opens a bidi / uni stream)
 //	w <sid> <n>                              => n=<k> | started    (a Write that does not fit the frame buffer runs in a goroutine)
 //	close <sid>                              => ok | E:other
+//	rb <sid>                                 => ok             (SetReliableBoundary)
+//	cw <sid>                                 => ok             (CancelWrite)
 //	smax <sid> <v> | cmax <v>                => ok             (MAX_STREAM_DATA / MAX_DATA received)
-//	pack <maxLen> <now>                      => S:<sid>:<off>:<len>:<fin> SB:<sid>:<limit> DB:<limit> MS:<rid>:<v> MD:<v> X:<other> ... | -
+//	pack <maxLen> <now>                      => S:<sid>:<off>:<len>:<fin> SB:<sid>:<limit> DB:<limit> MS:<rid>:<v> MD:<v> RS:<sid>:<final>:<reliable> X:<other> ... | -
 //	lost <k> | acked <k>                     => ok             (k-th outstanding STREAM frame)
 //	frame <rid> <off> <len> <fin> <now>      => ok | gone | E:FLOW_CONTROL_ERROR | E:FINAL_SIZE_ERROR | E:other
 //	rst <rid> <final> <reliable> <now>       => ok | gone | E:..   (RESET_STREAM / RESET_STREAM_AT received)
@@ -29,6 +36,7 @@ import (
 	"errors"
 	"fmt"
 	"io"
+	"os"
 	"sort"
 	"strconv"
 	"strings"
@@ -43,21 +51,24 @@ import (
 	"github.com/refraction-networking/uquic/internal/qerr"
 	"github.com/refraction-networking/uquic/internal/verifharness/vh"
 	"github.com/refraction-networking/uquic/internal/wire"
+	tls "github.com/refraction-networking/utls"
 )
 
 type sendSt struct {
-	s       *quic.SendStream
-	id      protocol.StreamID
-	written int64 // bytes accepted by completed Write calls + bytes of a running Write
-	newEnd  int64 // highest offset+len of any STREAM frame popped
-	writing bool  // a Write goroutine is running
-	closed  bool
-	wdone   chan int
+	s         *quic.SendStream
+	id        protocol.StreamID
+	written   int64 // bytes accepted by completed Write calls + bytes of a running Write
+	newEnd    int64 // highest offset+len of any STREAM frame popped
+	writing   bool  // a Write goroutine is running
+	closed    bool
+	cancelled bool // CancelWrite was called
+	wdone     chan int
 }
 
 type recvSt struct {
 	s         *quic.ReceiveStream
 	id        protocol.StreamID
+	advLimit  int64      // spec mode: the limit advertised for this kind of stream
 	ivs       [][2]int64 // received intervals (merged, sorted) — to know whether Read would block
 	readPos   int64
 	final     int64 // -1 unknown
@@ -81,7 +92,9 @@ type runner struct {
 	rcv    []*recvSt
 	sidx   map[protocol.StreamID]int
 	ridx   map[protocol.StreamID]int
-	nPeer  [2]int64   // peer-opened bidi / uni streams so far
+	nPeer  [2]int64 // peer-opened bidi / uni streams so far
+	adv    [3]int64 // spec mode: advertised bidi_local, bidi_remote, uni (generator steering); -1 otherwise
+	spec   bool
 	out    []outFrame // outstanding STREAM frames
 
 	now     int64
@@ -123,6 +136,22 @@ func (rn *runner) GenOp(r *vh.Rand, i int) string {
 		if r.Chance(20) {
 			pmd = 0
 		}
+		if r.Chance(30) {
+			// a spec-driven client: what is advertised comes from the QUICSpec, independently of the Config
+			a := [4]int64{rn.win(r) * int64(1+r.Intn(3)), rn.win(r), rn.win(r), rn.win(r)}
+			switch r.Pick(60, 15, 25) {
+			case 1: // everything as built in (Firefox: bidi_local 12 MiB, others 1 MiB; Chrome: all equal)
+				a = [4]int64{-1, -1, -1, -1}
+			case 2: // only some replaced
+				for i := range a {
+					if r.Bool() {
+						a[i] = -1
+					}
+				}
+			}
+			return fmt.Sprintf("uinit %s %d %d %d %d %d %d %d %d %d %d %d %d", []string{"ff", "ch"}[r.Pick(70, 30)], crw, crw*int64(1+r.Intn(4)),
+				srw, srw*int64(1+r.Intn(4)), a[0], a[1], a[2], a[3], pmd, pl, pr, pu)
+		}
 		return fmt.Sprintf("init %s %d %d %d %d %d %d %d %d", []string{"c", "s"}[r.Intn(2)], crw, crw*int64(1+r.Intn(4)),
 			srw, srw*int64(1+r.Intn(4)), pmd, pl, pr, pu)
 	}
@@ -149,7 +178,11 @@ func (rn *runner) GenOp(r *vh.Rand, i int) string {
 	ss := rn.snd[si]
 	ri := r.Intn(len(rn.rcv))
 	rs := rn.rcv[ri]
-	switch r.Pick(14, 2, 7, 5, 22, 3, 2, 20, 4, 16, 2, 7) {
+	switch r.Pick(14, 2, 7, 5, 22, 3, 2, 20, 4, 16, 2, 7, 3, 2) {
+	case 12:
+		return fmt.Sprintf("rb %d", si)
+	case 13:
+		return fmt.Sprintf("cw %d", si)
 	case 0: // write
 		var n int64
 		switch r.Pick(50, 30, 20) {
@@ -234,6 +267,11 @@ func (rn *runner) GenOp(r *vh.Rand, i int) string {
 			return fmt.Sprintf("frame %d %d %d %d %d", ri, off, ln, fin, rn.now)
 		}
 		room := min(lim-hr, climRoom)
+		if rn.spec && rs.advLimit > hr && r.Chance(20) {
+			// what the peer was told it may send on this kind of stream, whatever is enforced
+			off = max(rs.advLimit-r.Range(1, 1200), hr)
+			return fmt.Sprintf("frame %d %d %d %d %d", ri, off, rs.advLimit-off, 0, rn.now)
+		}
 		switch r.Pick(62, 10, 12, 8, 2, 2, 4) {
 		case 0: // in order, inside the windows
 			off = hr
@@ -426,13 +464,18 @@ func (rn *runner) addSend(s *quic.SendStream, id protocol.StreamID) int {
 	return len(rn.snd) - 1
 }
 
-func (rn *runner) addRecv(s *quic.ReceiveStream, id protocol.StreamID) int {
-	rn.rcv = append(rn.rcv, &recvSt{s: s, id: id, final: -1})
+func (rn *runner) addRecv(s *quic.ReceiveStream, id protocol.StreamID, advLimit int64) int {
+	rn.rcv = append(rn.rcv, &recvSt{s: s, id: id, final: -1, advLimit: advLimit})
 	rn.ridx[id] = len(rn.rcv) - 1
 	return len(rn.rcv) - 1
 }
 
+var debugOps = os.Getenv("FC_DEBUG") != ""
+
 func (rn *runner) Exec(op string) string {
+	if debugOps { // a hang cannot be seen in the (buffered) .ops file
+		fmt.Fprintln(os.Stderr, "exec:", op)
+	}
 	f := strings.Fields(op)
 	if len(f) == 0 {
 		return "skip"
@@ -472,6 +515,93 @@ func (rn *runner) Exec(op string) string {
 			return "E:other" + rn.suffix()
 		}
 		return "ok" + rn.suffix()
+	}
+	if f[0] == "uinit" {
+		if rn.conn != nil || len(f) < 14 {
+			return "skip"
+		}
+		for i := 2; i <= 5; i++ {
+			if arg(i) <= 0 {
+				return "skip"
+			}
+		}
+		id := quic.QUICFirefox_116
+		if f[1] == "ch" {
+			id = quic.QUICChrome_115
+		}
+		spec, err := quic.QUICID2Spec(id)
+		if err != nil || spec.ClientHelloSpec == nil {
+			return "skip"
+		}
+		var ext *tls.QUICTransportParametersExtension
+		for _, e := range spec.ClientHelloSpec.Extensions {
+			if q, ok := e.(*tls.QUICTransportParametersExtension); ok {
+				ext = q
+			}
+		}
+		if ext == nil {
+			return "skip"
+		}
+		// replace the advertised flow-control parameters; read back what the list now says
+		adv := [4]int64{0, 0, 0, 0}
+		for i, p := range ext.TransportParameters {
+			switch x := p.(type) {
+			case tls.InitialMaxData:
+				if arg(6) >= 0 {
+					ext.TransportParameters[i] = tls.InitialMaxData(arg(6))
+				} else {
+					_ = x
+				}
+			case tls.InitialMaxStreamDataBidiLocal:
+				if arg(7) >= 0 {
+					ext.TransportParameters[i] = tls.InitialMaxStreamDataBidiLocal(arg(7))
+				}
+			case tls.InitialMaxStreamDataBidiRemote:
+				if arg(8) >= 0 {
+					ext.TransportParameters[i] = tls.InitialMaxStreamDataBidiRemote(arg(8))
+				}
+			case tls.InitialMaxStreamDataUni:
+				if arg(9) >= 0 {
+					ext.TransportParameters[i] = tls.InitialMaxStreamDataUni(arg(9))
+				}
+			}
+		}
+		for _, p := range ext.TransportParameters {
+			switch x := p.(type) {
+			case tls.InitialMaxData:
+				adv[0] = int64(x)
+			case tls.InitialMaxStreamDataBidiLocal:
+				adv[1] = int64(x)
+			case tls.InitialMaxStreamDataBidiRemote:
+				adv[2] = int64(x)
+			case tls.InitialMaxStreamDataUni:
+				adv[3] = int64(x)
+			}
+		}
+		h, err := quic.VerifFCNewUConn(&spec, &quic.Config{
+			InitialConnectionReceiveWindow: uint64(arg(2)), MaxConnectionReceiveWindow: uint64(arg(3)),
+			InitialStreamReceiveWindow: uint64(arg(4)), MaxStreamReceiveWindow: uint64(arg(5)),
+			EnableStreamResetPartialDelivery: true,
+		})
+		if err != nil {
+			return "E:other"
+		}
+		rn.h, rn.client, rn.spec = h, true, true
+		rn.adv = [3]int64{adv[1], adv[2], adv[3]}
+		err = rn.h.PeerParameters(&wire.TransportParameters{
+			InitialMaxData:                 protocol.ByteCount(arg(10)),
+			InitialMaxStreamDataBidiLocal:  protocol.ByteCount(arg(11)),
+			InitialMaxStreamDataBidiRemote: protocol.ByteCount(arg(12)),
+			InitialMaxStreamDataUni:        protocol.ByteCount(arg(13)),
+			MaxBidiStreamNum:               1000,
+			MaxUniStreamNum:                1000,
+			EnableResetStreamAt:            true,
+		})
+		rn.conn = rn.h.ConnFC()
+		if err != nil {
+			return "E:other" + rn.suffix()
+		}
+		return fmt.Sprintf("ok adv=%d,%d,%d,%d", adv[0], adv[1], adv[2], adv[3]) + rn.suffix()
 	}
 	if rn.conn == nil {
 		return "skip"
@@ -530,7 +660,11 @@ func (rn *runner) Exec(op string) string {
 			sw = strconv.FormatInt(field(quic.VerifFCSendDump(ss), 1), 10)
 		}
 		if rs != nil {
-			rp = strconv.Itoa(rn.addRecv(rs, id))
+			al := int64(-1)
+			if rn.spec {
+				al = rn.adv[map[string]int{"lb": 0, "pb": 1, "pu": 2}[f[1]]]
+			}
+			rp = strconv.Itoa(rn.addRecv(rs, id, al))
 			rw = strconv.FormatInt(field(quic.VerifFCReceiveDump(rs), 5), 10)
 		}
 		res = fmt.Sprintf("s=%s r=%s id=%d sw=%s rw=%s", sp, rp, int64(id), sw, rw)
@@ -568,6 +702,23 @@ func (rn *runner) Exec(op string) string {
 		} else {
 			res = "ok"
 		}
+	case "rb":
+		s := sidx()
+		// not after CancelWrite: a reliable boundary set on a stream that was already reset without one makes a
+		// later OnLost/OnAcked of an old frame panic ("numOutStandingFrames negative") with the stream mutex held
+		if s == nil || s.cancelled {
+			return "skip"
+		}
+		s.s.SetReliableBoundary()
+		res = "ok"
+	case "cw":
+		s := sidx()
+		if s == nil {
+			return "skip"
+		}
+		s.s.CancelWrite(11)
+		s.closed, s.cancelled = true, true
+		res = "ok"
 	case "smax":
 		s := sidx()
 		if s == nil {
@@ -607,6 +758,8 @@ func (rn *runner) Exec(op string) string {
 				ctl = append(ctl, fmt.Sprintf("MS:%d:%d", rn.ridx[x.StreamID], int64(x.MaximumStreamData)))
 			case *wire.MaxDataFrame:
 				ctl = append(ctl, fmt.Sprintf("MD:%d", int64(x.MaximumData)))
+			case *wire.ResetStreamFrame:
+				ctl = append(ctl, fmt.Sprintf("RS:%d:%d:%d", rn.sidx[x.StreamID], int64(x.FinalSize), int64(x.ReliableSize)))
 			case *wire.StopSendingFrame:
 				ctl = append(ctl, fmt.Sprintf("X:stop_sending:%d", rn.ridx[x.StreamID]))
 			case *wire.MaxStreamsFrame:
